@@ -22,6 +22,9 @@ class Program:
         self.runnable = True
         self.note = ""
         self.family = ""
+        # text around the permuted block (used when the block under test is nested)
+        self.prefix = ""
+        self.suffix = ""
 
     def render(self, order):
         lines = ["begin"]
@@ -29,7 +32,7 @@ class Program:
             lines.append("  " + self.contributions[index][1] + " that")
         lines.append("  " + self.body)
         lines.append("end")
-        return "\n".join(lines) + "\n"
+        return self.prefix + "\n".join(lines) + self.suffix + "\n"
 
     def identity_order(self):
         return list(range(len(self.contributions)))
@@ -97,6 +100,10 @@ def gen_full(rng, builtin_path):
         text = f"def T{i} : VType = data {' '.join(arms)} end"
         deps = {f"T{j}" for j in refs} | {"H1", "H2"}
         program.contributions.append((f"T{i}", text, False, deps))
+    # local type aliases: referred to only from annotations inside binder patterns
+    alias_count = rng.below(3)
+    for index in range(alias_count):
+        program.contributions.append((f"A{index}", f"let A{index} = Int64", False, {"H2"}))
     # values: a hidden creation order keeps them acyclic
     literal = rng.range(2, 60)
     value_types = {}
@@ -114,6 +121,12 @@ def gen_full(rng, builtin_path):
                 text = f"let v{i} : T{t} = +K{t}({literal})"
                 value_types[i] = ("data", t, type_info[t][1], literal)
                 deps = {f"T{t}"}
+            elif alias_count and rng.chance(1, 2):
+                literal += 1
+                alias = rng.below(alias_count)
+                text = f"let (v{i} : A{alias}) = {literal}"
+                value_types[i] = ("int", literal)
+                deps = {f"A{alias}"}
             else:
                 literal += 1
                 text = f"let v{i} = {literal}"
@@ -180,28 +193,44 @@ def gen_full(rng, builtin_path):
 
 
 def gen_params(rng, builtin_path):
-    """Two parameters of one type in a nested block: their relative order fixes the
-    argument order, everything else may move."""
+    """A nested block with two or three parameters, some of whose annotations refer to
+    block-local type aliases.  Only the *inner* contributions are permuted (parameters keep
+    their relative order); the behaviour must be the same for every permutation.  Which
+    argument a parameter receives is decided by the dependency levels, so the exit code is
+    not predicted, only required to be permutation-independent."""
     program = Program()
     program.family = "params"
-    program.contributions = header(builtin_path)
-    x, y = rng.range(2, 60), rng.range(61, 120)
-    use = rng.pick(["a", "b"])
-    inner = [
-        ("param (a : Int64)", True),
-        ("param (b : Int64)", True),
-        (f"let z = {use}", False),
-        ("let w = (z, a)", False),
-    ]
-    order = list(range(len(inner)))
-    rng.shuffle(order)
-    params = [i for i in order if inner[i][1]]
-    fixed = iter(sorted(params))
-    order = [next(fixed) if inner[i][1] else i for i in order]
-    nested = " ".join(inner[i][0] + " that" for i in order)
-    program.body = f"(begin {nested} let (r, _) = w in ! (process/exit) r end) {x} {y}"
-    program.exit_code = x if use == "a" else y
-    program.note = f"nested parameter block, inner order {order}"
+    head = "\n".join("  " + text + " that" for _n, text, _p, _d in header(builtin_path))
+    arguments = [rng.range(2, 40), rng.range(41, 80), rng.range(81, 120)]
+    count = rng.range(2, 3)
+    names = ["a", "b", "c"][:count]
+    aliases = []
+    inner = []
+    for index, name in enumerate(names):
+        if rng.chance(1, 2):
+            alias = f"A{index}"
+            aliases.append(alias)
+            inner.append((alias, f"let {alias} = Int64", False, set()))
+            inner.append((name, f"param ({name} : {alias})", True, {alias}))
+        else:
+            inner.append((name, f"param ({name} : Int64)", True, set()))
+    use = rng.pick(names)
+    inner.append(("z", f"let z = {use}", False, {use}))
+    if rng.chance(1, 2):
+        other = rng.pick(names)
+        inner.append(("w", f"let (w : Int64) = {other}", False, {other}))
+        program.body = "let (r, _) = (z, w) in ! (process/exit) r"
+    else:
+        program.body = "! (process/exit) z"
+    # written order: aliases may sit anywhere, parameters keep a, b, c
+    rng.shuffle(inner)
+    params = iter(sorted((c for c in inner if c[2]), key=lambda c: c[0]))
+    inner = [next(params) if c[2] else c for c in inner]
+    program.contributions = inner
+    program.prefix = "begin\n" + head + "\n  def ! f = "
+    program.suffix = " that\n  ! f " + " ".join(str(a) for a in arguments[:count]) + "\nend"
+    program.exit_code = None
+    program.note = f"nested parameter block ({count} parameters, {len(aliases)} annotated through a local alias)"
     return program
 
 
@@ -294,6 +323,34 @@ def generate(seed, index, builtin_path):
     return gen_small(rng), rng
 
 
+def gen_multi_diagnostic(rng, builtin_path):
+    """A block with several independent defects (non-exhaustive matches over different data
+    types, optionally ill-typed definitions), so that several diagnostics compete for order."""
+    program = Program()
+    program.family = "multi-diagnostic"
+    program.runnable = False
+    program.expect = "reject"
+    program.contributions = header(builtin_path)
+    types = rng.range(2, 3)
+    for i in range(types):
+        arms = " ".join(f"| +C{i}{letter} : Unit" for letter in "abc")
+        program.contributions.append((f"D{i}", f"def D{i} : VType = data {arms} end", False, {"H1"}))
+    gaps = rng.range(2, 4)
+    for g in range(gaps):
+        i, j = rng.below(types), rng.below(types)
+        covered = rng.pick(["a", "b", "c"])
+        program.contributions.append((
+            f"f{g}",
+            f"def f{g} : Thk (D{i} -> Ret D{j}) = {{ fn (x : D{i}) => match x | +C{i}{covered}() => ret +C{j}a() end }}",
+            False, {f"D{i}", f"D{j}", "H1"}))
+    if rng.chance(1, 3):
+        program.contributions.append(("bad0", "def bad0 : Int64 = \"text\"", False, {"H2"}))
+        program.contributions.append(("bad1", "def bad1 : Int64 = ()", False, {"H2"}))
+    program.body = "! (process/exit) 0"
+    program.note = f"{gaps} coverage gaps over {types} data types"
+    return program
+
+
 def write_block_corpus(tree, seed, count):
     """Extra corpus for C16: one shuffled rendering of `count` generated programs."""
     directory = os.path.join(tree, "lib", "zygen")
@@ -301,7 +358,11 @@ def write_block_corpus(tree, seed, count):
     builtin = os.path.join(tree, "lib", "std", "builtin.zy")
     written = []
     for index in range(count):
-        program, rng = generate(seed, 1000 + index, builtin)
+        if index % 2 == 1:
+            rng = Rng(mix(seed, ENGINE, 2000 + index))
+            program = gen_multi_diagnostic(rng, builtin)
+        else:
+            program, rng = generate(seed, 1000 + index, builtin)
         orders, _ = permutations_of(program, rng, 3)
         order = orders[-1]
         rel = os.path.join("lib", "zygen", f"block{index}.zy")
